@@ -296,3 +296,54 @@ func GenJSONStream(r *vh.Rand) (good []byte, toks string, extra []byte) {
 	x, _ := json.Marshal(genEntity(r))
 	return b.Bytes(), strings.Join(ts, " "), x
 }
+
+// bigBody: n pseudo-random bytes (LF, digits and brackets included, so that a body cut short
+// leaves a tail that looks like ammo lines).
+func bigBody(r *vh.Rand, n int) string {
+	b := make([]byte, n)
+	alphabet := []byte("abcdefghijklmnopqrstuvwxyz0123456789 \n[]:/-")
+	x := r.U64()
+	for i := range b {
+		x = x*6364136223846793005 + 1442695040888963407
+		b[i] = alphabet[(x>>33)%uint64(len(alphabet))]
+	}
+	return string(b)
+}
+
+// GenBigCases: bodies around and above the 1 MiB preallocation bound of decoders.readBody
+// (1 MiB - 1, 1 MiB, 1 MiB + 64; thorough also ~1.5 MiB and 2 MiB), uripost and raw, each followed
+// by a small entry.
+func GenBigCases(r *vh.Rand, thorough bool) []string {
+	var out []string
+	up := []int{1<<20 - 1, 1 << 20, 1<<20 + 64}
+	raws := []int{1<<20 + 64}
+	if thorough {
+		up = append(up, 1500000, 2<<20)
+		raws = []int{1 << 20, 1<<20 + 64, 1500000}
+	}
+	for _, n := range up {
+		ls := []Line{
+			{Kind: 'R', A: "/big", B: "tbig", Body: bigBody(r, n)},
+			{Kind: 'B'},
+			{Kind: 'R', A: "/after", B: "t2", Body: "abc"},
+			{Kind: 'B'},
+		}
+		out = append(out, fmt.Sprintf("uripost 1 1 %s %s", vh.Hex(RenderSized(ls, true, true)), Tokens(ls)))
+	}
+	for _, total := range raws {
+		// request bytes of exactly `total` bytes: the Content-Length has 7 digits in all three
+		hdr := func(n int) string {
+			return "POST /upload HTTP/1.1\r\nHost: h\r\nContent-Length: " + strconv.Itoa(n) + "\r\n\r\n"
+		}
+		n := total - len(hdr(1000000))
+		req := hdr(n) + bigBody(r, n)
+		ls := []Line{
+			{Kind: 'R', B: "tbig", Body: req},
+			{Kind: 'B'},
+			{Kind: 'R', B: "t2", Body: "GET /after HTTP/1.0\r\nHost: h\r\n\r\n"},
+			{Kind: 'B'},
+		}
+		out = append(out, fmt.Sprintf("raw 1 1 %s %s", vh.Hex(RenderSized(ls, true, false)), Tokens(ls)))
+	}
+	return out
+}
